@@ -553,6 +553,10 @@ def tight_ok(k, lx, nlx):
     return False
 
 
+_EOF_ENDINGS = [' // done', '// x = 1;', '\n// last line', '\n\t// a /* b', '//', ' // */ x', ' /* end */', '/**/', ' /* a\n b **/',
+                '  ', '\t', '\n', '\r\n', ' \n ', ' // one\n// two']
+
+
 def layout(toks, rng, mode):
     """tokens -> (text, tokens as they should be lexed); see layout3"""
     text, want, _ = layout3(toks, rng, mode)
@@ -622,6 +626,10 @@ def layout3(toks, rng, mode):
         sep0 = rng.choice(_WS + [comment(rng)])
     if mode >= 2 and rng.random() < 0.3 and n:
         gaps[n - 1] = rng.choice(_WS + [comment(rng)])
+    elif mode >= 1 and n and rng.random() < 0.08:
+        # how the TEXT ends (such texts go through the public entry `oal.parse(text)`, which has to supply the final
+        # line break itself): a `//` comment that is not followed by a line break, a block comment, blanks, a line break
+        gaps[n - 1] = rng.choice(_EOF_ENDINGS)
     text = sep0 + ''.join(lx + g for (_, lx), g in zip(want, gaps))
     return text, want, [sep0] + gaps
 
@@ -1441,7 +1449,15 @@ def run_impl(case):
                       'what': 'text %r lexes to %r..., written tokens were %r... (first difference at token %d)'
                               % (text, got[k:k + 3], want[k:k + 3], k)})
     # the real parser (one reused OALParser; a sample goes through oal.parse itself)
-    via_parse = (case.get('lay', 0) % 20 == 0) or _parser is None
+    # the public entry `oal.parse(text)` (a new OALParser per call: ~7 ms) for a sample of the texts that end with their
+    # last token, for a quarter of those that go on after it (blanks, line break, block comment, terminated `//`
+    # comment, layout before the first token) and for EVERY text that ends in a `//` comment without a line break:
+    # `parse` has to complete the text; all other texts go through the worker's one OALParser (`text_input`)
+    last = want[-1][1] if want else ''
+    tail = text[text.rfind(last) + len(last):] if last else text
+    lay_no = case.get('lay', 0)
+    via_parse = _parser is None or lay_no % 40 == 0 or ('//' in tail and not tail.endswith('\n')) or \
+        ((tail or text != text.lstrip()) and lay_no % 4 == 0)
     root = None
     try:
         root = _oal.parse(text) if via_parse else _parser.text_input(text + '\n')
@@ -1456,9 +1472,16 @@ def run_impl(case):
     if tree is not None:
         want_tree = y_body(tree)
         if obs_tree != want_tree:
-            fails.append({'sig': 'spec-order' if case['fam'] == 'spec' else 'roundtrip',
-                          'what': 'text %r parses to %s, the tree that was written is %s'
-                                  % (text, dumps(obs_tree), dumps(want_tree))})
+            sig = 'spec-order' if case['fam'] == 'spec' else 'roundtrip'
+            how = 'oal.parse(text)' if via_parse else 'OALParser.text_input(text + "\\n")'
+            if via_parse and _parser is not None:
+                other, _ = _ply_tree(text, False)
+                if other == want_tree:
+                    # the grammar is fine: the public entry point treats the END of the text differently
+                    sig = 'entry-point-end-of-text'
+                    how = 'oal.parse(text) [OALParser.text_input(text + "\\n") gives the written tree]'
+            fails.append({'sig': sig, 'what': 'text %r parses via %s to %s, the tree that was written is %s'
+                                              % (text, how, dumps(obs_tree), dumps(want_tree))})
     elif must_reject:
         if obs_tree != S('ParseException'):
             fails.append({'sig': 'spec-order', 'what': 'text %r (two comparison operators in a row) must be rejected, '
@@ -1466,6 +1489,14 @@ def run_impl(case):
     nops = sum(1 for k, _ in toks if k in SPEC or k in ('NOT', 'EMPTY', 'NOT_EMPTY', 'CARDINALITY'))
     compound = any(k in ('IF', 'WHILE', 'FOR', 'SELECT', 'GENERATE', 'CREATE', 'RELATE', 'UNRELATE') for k, _ in toks)
     stats = {'cases_' + case['fam']: 1, 'tokens': len(toks), 'mode_%d' % case.get('mode', 0): 1}
+    if via_parse:
+        stats['via_oal_parse'] = 1
+        if '//' in tail and not tail.endswith('\n'):
+            stats['ends_in_line_comment_without_newline'] = 1
+        elif tail.rstrip().endswith('*/'):
+            stats['ends_in_block_comment'] = 1
+        elif tail:
+            stats['ends_in_white_space'] = 1
     if obs_tree == S('ParseException'):
         stats['rejected_' + case['fam']] = 1
     if case['fam'] in ('rstmt',):
@@ -1502,6 +1533,8 @@ def model_line(case):
         return dumps([S('c07'), NONE, [S('lay')] + list(case['lay'])] + [[S(k), l] for k, l in case['toks']])
     toks, tree, cmp_print, want, lay = _built(case)
     tree_s = tree if (tree is not None and cmp_print) else NONE
+    if lay and '//' in lay[-1] and not lay[-1].endswith('\n'):
+        lay = lay[:-1] + [lay[-1] + '\n']       # an unterminated `//` comment at the end: closed by the final line break
     return dumps([S('c07'), tree_s, [S('lay')] + lay] + [[S(k), l] for k, l in want])
 
 
